@@ -231,7 +231,7 @@ class Config:
                       cxx='g++', std='-std=gnu++17'):
         """Compile harness sources (C++) and link with the library objects."""
         fl = FLAVOURS[self.flavour]
-        hflags = ['-O1', '-g', '-Wall', '-Wno-unused-function', '-I' + os.path.join(VERIF, 'asim'),
+        hflags = ['-O1', '-g', '-Wall', '-Wno-unused-function', '-fno-lifetime-dse', '-I' + os.path.join(VERIF, 'asim'),
                   '-DASIM_CONFIG="%s"' % self.name,
                   '-DASIM_BACKEND_%s=1' % self.backend.upper(),
                   '-DASIM_KEY_SHARES=%d' % self.shares[0],
